@@ -259,7 +259,11 @@ func specParse(src string) (out []specInstr, ok bool, why string) {
 			continue
 		}
 		if inBatch {
-			return nil, false, "batch lines must come last"
+			// a regular line ends the batch: it expands where it stands, with its own lines only
+			out = append(out, pre...)
+			out = append(out, specInstr{op: "HALT", mode: -1, src: "(batch)"})
+			out = append(out, post...)
+			pre, post, inBatch = nil, nil, false
 		}
 		switch f[0] {
 		case "HALT", "MSINK":
@@ -635,6 +639,15 @@ func (g *asmGen) program() string {
 	if g.r(2) == 0 || n == 0 {
 		for i := 1 + g.r(4); i > 0; i-- {
 			s += g.line(asmBatch[g.r(4)])
+		}
+		// sometimes more regular lines and further batches after the first one
+		for g.r(3) == 0 {
+			for i := 1 + g.r(3); i > 0; i-- {
+				s += g.line(asmOps[g.r(len(asmOps))])
+			}
+			for i := g.r(3); i > 0; i-- {
+				s += g.line(asmBatch[g.r(4)])
+			}
 		}
 	}
 	return s
